@@ -113,11 +113,27 @@ class DirectRejects(Case):
         return dict(sh=sh, pts=_points(mk, sh, "general", 1))
 
     def code(self, I, mk):
-        from gbasis.evals.eval_deriv import evaluate_deriv_basis
+        from gbasis.evals.eval_deriv import EvalDeriv, evaluate_deriv_basis
 
         s = make_shell(mk, I["sh"], normalise=True)
-        return {"D": evaluate_deriv_basis([s], mk.array(I["pts"]), np.array(self.params["orders"], dtype=int),
-                                          deriv_type=self.params["backend"])}
+        via = self.params.get("via", "public")
+        pts, o, dt = mk.array(I["pts"]), np.array(self.params["orders"], dtype=int), self.params["backend"]
+        n = cm.nfun(self.params["l"], "c")
+        if via == "public":
+            out = evaluate_deriv_basis([s], pts, o, deriv_type=dt)
+        elif via == "transform":
+            # the same request with a transformation matrix (identity): a different route into the back-end
+            out = evaluate_deriv_basis([s], pts, o, transform=np.identity(n), deriv_type=dt)
+        elif via == "spherical":
+            s.coord_type = "spherical"
+            out = evaluate_deriv_basis([s], pts, o, deriv_type=dt)
+        elif via == "class_cart":
+            out = EvalDeriv([s]).construct_array_cartesian(points=pts, orders=o, deriv_type=dt)
+        elif via == "class_lincomb":
+            out = EvalDeriv([s]).construct_array_lincomb(np.identity(n), ["cartesian"], points=pts, orders=o, deriv_type=dt)
+        else:
+            out = EvalDeriv.construct_array_contraction(s, pts, o, deriv_type=dt)
+        return {"D": out}
 
     def ref(self, I, ops, mk):
         return {"__raises__": "*"}
@@ -217,6 +233,10 @@ def cases(tier):
     for o in ([3, 0, 0], [0, 3, 0], [1, 0, 4], [2, 3, 2]):
         out.append(DirectRejects(l=2, orders=o, backend="direct"))
     out.append(DirectRejects(l=1, orders=[1, 0, 0], backend="Direct"))
+    # every route into the back-end rejects the request, not only the plain function call
+    for via in ("transform", "spherical", "class_cart", "class_lincomb", "contraction"):
+        out.append(DirectRejects(l=1, orders=[0, 3, 1], backend="direct", via=via))
+        out.append(DirectRejects(l=1, orders=[0, 1, 1], backend="numeric", via=via))
     out.append(Public(ls=[0, 1], types="cc", Ks=[2, 1], Ms=[1, 2], orders=[0, 0, 0], npts=2))
     out.append(Public(ls=[2, 1], types="sc", Ks=[1, 1], Ms=[1, 1], orders=[1, 0, 1]))
     out.append(Public(ls=[1, 2], types="cs", Ks=[1, 1], Ms=[1, 1], orders=[0, 2, 0], backend="direct"))
